@@ -2,7 +2,7 @@
     source says now (coq/Gen is regenerated from /repo on every run). *)
 From Coq Require Import List ZArith Lia Bool.
 From Webp Require Import Vp8l.Vp8lPixel Vp8l.Vp8lPrefix Vp8l.Vp8lSpec.
-From WebpGen Require Consts Tables.
+From WebpGen Require Consts Tables Vp8lRoles.
 Import ListNotations.
 Open Scope Z_scope.
 
@@ -42,7 +42,7 @@ Theorem format_constants_match_spec :
   WebpGen.Consts.lossless_NumLiteralCodes = 256 /\ WebpGen.Consts.lossless_NumLengthCodes = 24 /\
   WebpGen.Consts.lossless_NumDistanceCodes = 40 /\ WebpGen.Consts.lossless_CodeLengthCodes = 19 /\
   WebpGen.Consts.lossless_MaxAllowedCodeLength = 15 /\ WebpGen.Consts.lossless_DefaultCodeLength = 8 /\
-  WebpGen.Consts.lossless_MaxCacheBits = 11 /\ WebpGen.Consts.lossless_kHashMul = 506832829 /\
+  WebpGen.Consts.lossless_MaxCacheBits = 11 /\ WebpGen.Vp8lRoles.lossless_role_colorcache_mul = 506832829 /\
   WebpGen.Consts.lossless_VP8LMagicByte = 47 /\ WebpGen.Consts.lossless_VP8LImageSizeBits = 14 /\
   WebpGen.Consts.lossless_VP8LVersionBits = 3 /\ WebpGen.Consts.lossless_VP8LVersion = 0 /\
   WebpGen.Consts.lossless_MinTransformBits = 2 /\ WebpGen.Consts.lossless_NumTransformBits = 3 /\
@@ -53,5 +53,5 @@ Theorem format_constants_match_spec :
   WebpGen.Tables.lossless_CodeLengthCodeOrder = code_length_order /\
   WebpGen.Tables.lossless_CodeLengthExtraBits = [2; 3; 7] /\
   WebpGen.Tables.lossless_CodeLengthRepeatOffsets = [3; 3; 11] /\
-  WebpGen.Tables.lossless_kBaseAlphabetSize = [256 + 24; 256; 256; 256; 40].
+  WebpGen.Vp8lRoles.lossless_role_base_alphabet_sizes = [256 + 24; 256; 256; 256; 40].
 Proof. vm_compute. repeat split. Qed.
